@@ -18,6 +18,7 @@ structure St where
   asOf : Int := 0
   revoked : List String := []
   trust : List (String × String) := []
+  lists : List (String × String × List Nat) := []
 
 def optInt (j : Json) (k : String) : Option Int :=
   match j.getObjVal? k with
@@ -102,7 +103,9 @@ def envOf (st : St) (op : Json) : Env :=
   { now := 0
     resolve := resolveAt st
     revoked := fun id => st.revoked.contains id
-    statusList := fun _ => none
+    statusList := fun url => match st.lists.find? (fun x => x.1 == url) with
+      | some (_, purpose, revoked) => some { purpose := purpose, bit := fun i => some (revoked.contains i) }
+      | none => none
     trusted := fun t i => st.trust.contains (t, i)
     parseDID := lookupTable op "dids"
     didOfURL := lookupTable op "urls" }
@@ -133,6 +136,9 @@ def step (st : St) (j : Json) : St × List String :=
       | _ => []
     ({ st with hist := hist, asOf := jInt j "asOf" }, ["world"])
   | "reset" => ({}, ["reset"])
+  | "statuslist" =>
+    let ls := st.lists.filter (fun x => x.1 != jStr j "url")
+    ({ st with lists := if jBool j "available" then (jStr j "url", jStr j "purpose", jNats j "revoked") :: ls else ls }, ["statuslist"])
   | "trust" =>
     let e := (jStr j "type", jStr j "issuer")
     let tr := st.trust.filter (fun x => x != e)
